@@ -17,7 +17,7 @@ for idx, (f, i, a, b, rep, pat) in enumerate(cands):
     else:
         lines[i] = lines[i][:a] + rep + lines[i][b:]
     open(p, "w").write("\n".join(lines))
-    r = subprocess.run("cargo test --offline 2>&1 | grep -E '^test result|^error|FAILED' | head -20", shell=True, cwd="/tmp/mut/repo", capture_output=True, text=True)
+    r = subprocess.run("timeout 180 cargo test --offline 2>&1 | grep -E '^test result|^error|FAILED' | head -20", shell=True, cwd="/tmp/mut/repo", capture_output=True, text=True)
     out = r.stdout
     ok = ("error" not in out) and ("FAILED" not in out) and out.count("test result: ok") >= 6
     print(idx, f, i + 1, repr(pat), "SURVIVES" if ok else "killed/uncompilable", flush=True)
